@@ -68,12 +68,8 @@ pub fn check_outcome(out: &Outcome, input: &[u8], o: &Opts) -> Vec<Finding> {
         (Outcome::Ok(_), Expect::Ok { .. }) => {}
         (Outcome::ErrData, Expect::ErrData) => {}
         (Outcome::ErrVersion, Expect::ErrVersion) => {}
-        // over-capacity input with a forced version: either documented error is accepted
-        (Outcome::ErrData, Expect::ErrVersion) | (Outcome::ErrVersion, Expect::ErrData) if o.version.is_some() && r::min_version(
-            o.mode.map(|m| m as usize).unwrap_or_else(|| r::auto_mode(input)),
-            o.ecl.map(|e| e as usize).unwrap_or(2),
-            input.len(),
-        ).is_none() => {}
+        // over-capacity input with a forced version: no version holds the input, so no forced version is "smaller than
+        // the smallest sufficient one"; the statement's clause for inputs beyond version 40 applies as it stands
         (got, exp) => {
             let key = match (got, exp) {
                 (Outcome::Ok(_), Expect::ErrData) => "ok-beyond-v40-capacity",
